@@ -431,6 +431,10 @@ func c15(c *Ctx) {
 						res := emit(em)
 						okNop := len(res) > 0
 						for _, e := range res {
+							if len(e.Bytes) == 0 {
+								okNop = false
+								continue
+							}
 							if v, ok := e.Bytes[0].constVal(); !ok || v != 0x90 {
 								okNop = false
 							}
